@@ -142,8 +142,16 @@ func ops(quick bool) []seq.Op[*pair] {
 	}
 	for _, n := range []int{0, 1, 3, 100} {
 		n := n
-		add(fmt.Sprintf("Read(%d)", n), false, func(t *tex.Buffer) string { p := make([]byte, n); k, e := t.Read(p); return fmt.Sprintf("%d %s %q", k, errStr(e), p[:max(k, 0)]) },
-			func(b *bytes.Buffer) string { p := make([]byte, n); k, e := b.Read(p); return fmt.Sprintf("%d %s %q", k, errStr(e), p[:max(k, 0)]) })
+		add(fmt.Sprintf("Read(%d)", n), false, func(t *tex.Buffer) string {
+			p := make([]byte, n)
+			k, e := t.Read(p)
+			return fmt.Sprintf("%d %s %q", k, errStr(e), p[:max(k, 0)])
+		},
+			func(b *bytes.Buffer) string {
+				p := make([]byte, n)
+				k, e := b.Read(p)
+				return fmt.Sprintf("%d %s %q", k, errStr(e), p[:max(k, 0)])
+			})
 	}
 	add("ReadByte", false, func(t *tex.Buffer) string { c, e := t.ReadByte(); return fmt.Sprint(c, errStr(e)) }, func(b *bytes.Buffer) string { c, e := b.ReadByte(); return fmt.Sprint(c, errStr(e)) })
 	add("ReadRune", false, func(t *tex.Buffer) string { r, n, e := t.ReadRune(); return fmt.Sprint(r, n, errStr(e)) }, func(b *bytes.Buffer) string { r, n, e := b.ReadRune(); return fmt.Sprint(r, n, errStr(e)) })
@@ -189,13 +197,27 @@ func ops(quick bool) []seq.Op[*pair] {
 	}
 	for _, s := range []rs{{"chunks", []string{"ab", "c"}, nil, false}, {"empty", nil, nil, false}, {"err-after-ab", []string{"ab"}, errW, false}, {"negative", nil, nil, true}, {"big", []string{strings.Repeat("q", 600)}, nil, false}} {
 		s := s
-		add("ReadFrom("+s.name+")", false, func(t *tex.Buffer) string { n, e := t.ReadFrom(&scriptedReader{chunks: append([]string(nil), s.chunks...), err: s.err, neg: s.neg}); return fmt.Sprint(n, errStr(e)) },
-			func(b *bytes.Buffer) string { n, e := b.ReadFrom(&scriptedReader{chunks: append([]string(nil), s.chunks...), err: s.err, neg: s.neg}); return fmt.Sprint(n, errStr(e)) })
+		add("ReadFrom("+s.name+")", false, func(t *tex.Buffer) string {
+			n, e := t.ReadFrom(&scriptedReader{chunks: append([]string(nil), s.chunks...), err: s.err, neg: s.neg})
+			return fmt.Sprint(n, errStr(e))
+		},
+			func(b *bytes.Buffer) string {
+				n, e := b.ReadFrom(&scriptedReader{chunks: append([]string(nil), s.chunks...), err: s.err, neg: s.neg})
+				return fmt.Sprint(n, errStr(e))
+			})
 	}
 	for _, m := range []string{"full", "short", "err", "over"} {
 		m := m
-		add("WriteTo("+m+")", false, func(t *tex.Buffer) string { w := &scriptedWriter{mode: m}; n, e := t.WriteTo(w); return fmt.Sprintf("%d %s %q", n, errStr(e), w.got) },
-			func(b *bytes.Buffer) string { w := &scriptedWriter{mode: m}; n, e := b.WriteTo(w); return fmt.Sprintf("%d %s %q", n, errStr(e), w.got) })
+		add("WriteTo("+m+")", false, func(t *tex.Buffer) string {
+			w := &scriptedWriter{mode: m}
+			n, e := t.WriteTo(w)
+			return fmt.Sprintf("%d %s %q", n, errStr(e), w.got)
+		},
+			func(b *bytes.Buffer) string {
+				w := &scriptedWriter{mode: m}
+				n, e := b.WriteTo(w)
+				return fmt.Sprintf("%d %s %q", n, errStr(e), w.got)
+			})
 	}
 	return o
 }
@@ -219,7 +241,9 @@ type start struct {
 var starts = []start{
 	{"zero", func() *pair { return &pair{t: &tex.Buffer{}, b: &bytes.Buffer{}} }},
 	{"NewBuffer(hello)", func() *pair { return &pair{t: tex.NewBuffer([]byte("hello")), b: bytes.NewBuffer([]byte("hello"))} }},
-	{"NewBufferString(aé世\\xff)", func() *pair { return &pair{t: tex.NewBufferString("aé世\xff"), b: bytes.NewBufferString("aé世\xff")} }},
+	{"NewBufferString(aé世\\xff)", func() *pair {
+		return &pair{t: tex.NewBufferString("aé世\xff"), b: bytes.NewBufferString("aé世\xff")}
+	}},
 	{"NewSizedBuffer(8)", func() *pair { return &pair{t: tex.NewSizedBuffer(8), b: bytes.NewBuffer(make([]byte, 0, 8))} }},
 	{"NewSizedBuffer(0)", func() *pair { return &pair{t: tex.NewSizedBuffer(0), b: bytes.NewBuffer(make([]byte, 0))} }},
 }
